@@ -123,6 +123,10 @@ C01_CipherKeyedBySecret(B, k) == Idx(H(B, k), IsGarbledTx) = {}
 C12_AsksAboutClaimedName(B, k) ==
   \A i \in AuthCalls(B, k) : H(B, k)[i].c.who = "claimed" /\ H(B, k)[i].c.secretOk /\ H(B, k)[i].c.pubOk
 
+\* C11 at connection level: the hash towards the session service is over THIS connection's inputs -- the shared secret the client sent
+\* and the very public key the Encryption Request carried (however long the client took to answer it)
+C11_HashOverThisConnection(B, k) == \A i \in AuthCalls(B, k) : H(B, k)[i].c.secretOk /\ H(B, k)[i].c.pubOk
+
 C01(B, k) == /\ C01_GrantOnlyVouched(B, k) /\ C01_PlayerIsVouched(B, k) /\ C01_AuthArgs(B, k)
              /\ C01_NoGrantOnFailure(B, k) /\ C01_CipherKeyedBySecret(B, k)
 
@@ -322,7 +326,7 @@ ClauseNames(p) ==
     [] p = "C04" -> {"C04_ProportionateMemory", "C04_NoPanic","C04_EndsByItself","C04_BoundedAllocation","C04_BadFrameEndsSilently"}
     [] p = "C06" -> {"C06_Order","C06_NothingGarbled","C06_CookieRequestKeys","C06_SuccessAfterHonestResponse",
                      "C06_RoutingAfterClientInfo","C06_StatusExchange","C06_CompleteLogin","C06_DeviationSilent"}
-    [] p = "C12" -> {"C12_AsksAboutClaimedName"}
+    [] p = "C12" -> {"C12_AsksAboutClaimedName"} [] p = "C11" -> {"C11_HashOverThisConnection"}
     [] p = "C10" -> {"C10_AuthCookieIssuedIff","C10_AuthCookieContents","C10_SessionCookie","C10_StoredCookieAccepted"}
     [] OTHER -> {}
 
@@ -338,7 +342,7 @@ Clause(n, B, k) ==
     [] n = "C03_ErrorNoTransfer" -> C03_ErrorNoTransfer(B, k)
     [] n = "C04_NoPanic" -> C04_NoPanic(B, k) [] n = "C04_EndsByItself" -> C04_EndsByItself(B, k)
     [] n = "C04_BoundedAllocation" -> C04_BoundedAllocation(B, k) [] n = "C04_BadFrameEndsSilently" -> C04_BadFrameEndsSilently(B, k)
-    [] n = "C04_ProportionateMemory" -> C04_ProportionateMemory(B, k)
+    [] n = "C04_ProportionateMemory" -> C04_ProportionateMemory(B, k) [] n = "C11_HashOverThisConnection" -> C11_HashOverThisConnection(B, k)
     [] n = "C06_Order" -> C06_Order(B, k) [] n = "C06_NothingGarbled" -> C06_NothingGarbled(B, k)
     [] n = "C06_CookieRequestKeys" -> C06_CookieRequestKeys(B, k) [] n = "C06_SuccessAfterHonestResponse" -> C06_SuccessAfterHonestResponse(B, k)
     [] n = "C06_RoutingAfterClientInfo" -> C06_RoutingAfterClientInfo(B, k) [] n = "C06_StatusExchange" -> C06_StatusExchange(B, k)
